@@ -117,6 +117,26 @@ def function_sites(fn: ast.AST, module_tree: ast.AST) -> list[tuple[str, ast.AST
             v = _strip_cast(r_.value)
             if isinstance(v, ast.Name) and v.id not in params and defs.get(v.id) and all(isinstance(d, ast.Call) and unparse(d.func).split("[")[0] in MUTABLE_CTORS for d in defs[v.id]):
                 out.append(("mutable-returned-as-immutable", r_, f"{v.id} = {unparse(defs[v.id][0])[:40]}; -> {ret_ann[:30]}"))
+    # a mutable default argument that the function itself writes: state shared by every call that omits the argument
+    pos_ = a.posonlyargs + a.args
+    dflt = dict(zip([x.arg for x in pos_[len(pos_) - len(a.defaults):]], a.defaults))
+    dflt.update({x.arg: d for x, d in zip(a.kwonlyargs, a.kw_defaults) if d is not None})
+    for pn, d in dflt.items():
+        if not (isinstance(d, (ast.Dict, ast.List, ast.Set)) or (isinstance(d, ast.Call) and unparse(d.func) in ("dict", "list", "set", "defaultdict", "OrderedDict", "deque"))):
+            continue
+        if pn in defs:
+            continue  # re-bound in the function (`m = dict(m)`)
+        for n in ast.walk(fn):
+            w = None
+            if isinstance(n, (ast.Assign, ast.AugAssign)):
+                tgs = n.targets if isinstance(n, ast.Assign) else [n.target]
+                if any(isinstance(t_, ast.Subscript) and unparse(t_.value) == pn for t_ in tgs) or (isinstance(n, ast.AugAssign) and unparse(n.target) == pn):
+                    w = n
+            if isinstance(n, ast.Call) and isinstance(n.func, ast.Attribute) and unparse(n.func.value) == pn and n.func.attr in MUTATORS:
+                w = n
+            if w is not None:
+                out.append(("mutable-default-written", w, f"{pn}={unparse(d)}"))
+                break
     # a shallow copy shares the containers held in the fields of the original
     shallow = {n.targets[0].id: n for n in ast.walk(fn) if isinstance(n, ast.Assign) and len(n.targets) == 1 and isinstance(n.targets[0], ast.Name) and isinstance(n.value, ast.Call) and unparse(n.value.func) in ("copy", "copy.copy") and len(n.value.args) == 1}
     for nm, bind in shallow.items():
@@ -240,7 +260,9 @@ def check(idx: Index, rep: Report, prop: str) -> None:
         for f in mi.functions.values():
             for kind, node, detail in function_sites(f.raw_node, mi.tree):
                 inst = f"{rel}:{f.qualname}:{kind}"
-                if kind == "shallow-copy-updated-in-place":
+                if kind == "mutable-default-written":
+                    msg = f"`{unparse(node)[:60]}` writes the parameter `{detail}`, whose default is created once when the function is defined: what one call records is still there for the next call that omits the argument"
+                elif kind == "shallow-copy-updated-in-place":
                     msg = f"`{unparse(node)[:70]}` updates in place a container that belongs to a field of `{detail}`: a shallow copy shares the containers of the original, so the update is also made to the object that was copied (and to every other shallow copy of it)"
                 elif kind == "mutable-returned-as-immutable":
                     msg = f"`{unparse(node)}` hands out the mutable buffer `{detail.split(';')[0]}` although the function is declared `{detail.split(';')[1].strip()}`: the result compares equal to the immutable value but cannot be hashed and can be changed in place by whoever holds it"
